@@ -139,6 +139,7 @@ type runner struct {
 	refFault *Fault
 	refCalls int
 	epochMs  int64
+	warm     []OpResult // outcomes of Spec.Warm
 	spec    *Spec
 	prop    string
 	docs    map[string]*docInst
@@ -303,6 +304,14 @@ func buildDoc(d DocSpec) *docInst {
 			m["rec"] = &oracle.Rec{P: name, Q: n, Tags: []string{"a" + name, "b"}, In: nest, Sub: &oracle.Rec{P: "sub" + name, Q: n + 1}}
 			m["val"] = oracle.Rec{P: "v" + name, Q: n * 2, Tags: []string{}}
 			m["recs"] = []oracle.Rec{{P: "r1" + name, Q: 1}, {P: "r0", Q: n, Tags: []string{"t"}}, {P: "r2", Q: 0.5, In: map[string]interface{}{"k": name}}}
+			// "the wrong kind of nil": typed nil pointers, nil maps and nil
+			// slices stored in generic containers (deep equality tells
+			// them from a plain nil), next to non-nil pointers to scalars
+			ps, pf := "p"+name, n+0.5
+			m["opt"] = map[string]interface{}{"np": (*string)(nil), "ps": &ps, "nr": (*oracle.Rec)(nil), "pf": &pf}
+			m["nils"] = []interface{}{(*string)(nil), "x" + name, (*oracle.Rec)(nil), nil, &ps, map[string]interface{}(nil), []interface{}(nil)}
+			m["nmap"] = map[string]interface{}(nil)
+			m["nsl"] = []interface{}(nil)
 		}
 	}
 	if d.Member != "" {
@@ -714,6 +723,15 @@ func Execute(spec *Spec, opt Options) *Result {
 	}
 	if usesRegistry {
 		r.model = newRegModel(spec)
+		r.warm = make([]OpResult, len(spec.Warm))
+		for i := range spec.Warm {
+			wr := &r.warm[i]
+			wr.Invoke = r.nextStamp()
+			r.execRegistryOp(nil, -1, i, &spec.Warm[i], wr)
+			wr.Return = r.nextStamp()
+			wr.Done = true
+		}
+		res.Probes["registry_warm_ops"] += len(spec.Warm)
 	}
 
 	// ---- strategy ----
@@ -1105,7 +1123,10 @@ func (r *runner) postChecks(res *Result) {
 				seenPos[hk] = map[string]bool{}
 			}
 			seenPos[hk][fmt.Sprintf("%d.%d", ti, oi)] = true
-			if or.Fired == "" && r.spec.Kind == "history" {
+			if or.Fired == "" && r.spec.Kind == "history" && !AutoYield {
+				// (not from the auto-yield worker: its map order is a per-run
+				// choice, and the driver re-executes cross findings in the
+				// hook worker)
 				// (triple, outcome) pairs for the cross-process comparison
 				// done by the driver: the same call must give the same
 				// outcome in every process, whatever ran there before
